@@ -126,6 +126,7 @@ class Reporter:
         for k, v in self.extra.items():
             if k.startswith("_set_"):
                 extra["distinct_" + k[5:]] = len(v)
+                extra[k[5:]] = sorted(map(str, v))[:25]
             else:
                 extra[k] = v
         nstates = len(self.states) + self.n_states_extra
